@@ -31,7 +31,7 @@ for m in msgs:
     seen.add(m)
     try: f = mod.encode_cobs(bytearray(m)); out.append("cobs %s %s" % (hx(m), hx(f)))
     except Exception: out.append("cobs %s ERROR" % hx(m))
-    if 0 not in m:
-        try: f = mod.encode_command(bytearray(m)); out.append("command %s %s" % (hx(m), hx(f)))
-        except Exception: out.append("command %s ERROR" % hx(m))
+    # command text cannot carry a zero byte: for those messages the encoder has to refuse (ERROR is the expected answer)
+    try: f = mod.encode_command(bytearray(m)); out.append("command %s %s" % (hx(m), hx(f)))
+    except Exception: out.append("command %s ERROR" % hx(m))
 sys.stdout.write("\n".join(out) + "\n")
